@@ -23,23 +23,23 @@ PLANT_LETTERS = (2, 3, 4, 5, 6, 7)
 
 def bounds(tier):
     q = tier == "quick"
-    return {"ff/bf": f"all sequences of 1..{6 if q else 7} items over 0..6 (B=6); all sequences of 1..{4 if q else 5} over 1..10 (B=10)",
-            "ffd/bfd": f"all multisets of 1..{8 if q else 9} items over 0..6 (B=6) and 1..{7 if q else 8} over 1..10 (B=10)",
+    return {"ff/bf": f"all sequences of 1..{6 if q else 8} items over 0..6 (B=6); all sequences of 1..{4 if q else 6} over 1..10 (B=10)",
+            "ffd/bfd": f"all multisets of 1..{8 if q else 10} items over 0..6 (B=6) and 1..{7 if q else 9} over 1..10 (B=10)",
             "planted-big": "B=12 and B=101 (letters 1,2,16,17,33,34,50,51,67): every unordered pair of patterns x multiplicities " + ("(18,9),(60,30)" if q else "(18,9),(60,30),(5,100),(150,150)") + ", 6 arrival orders",
-            "count-sweep": f"for every m in 1..{40 if q else 140}: inputs that need exactly m bins (B=10), 6 arrival orders",
-            "fractions": f"multiples of 1/2 (B=7, B=10): sequences of 1..{4 if q else 5}, multisets of 1..{7 if q else 8}; multiples of 1/8 with B=1 and B=7/8: multisets of 1..{8 if q else 9}",
-            "big": f"B=2**32, letters {{1, 2**31-1, 2**31, 2**31+1, 2**32-1, 2**32}}: all sequences of 1..{4 if q else 5}, multisets of 1..{5 if q else 6}",
-            "planted": f"B=12, letters {PLANT_LETTERS}, patterns <=4 parts, m=3..{6 if q else 8} bins, 6 orders, 4 algorithms"}
+            "count-sweep": f"for every m in 1..{40 if q else 141}: inputs that need exactly m bins (B=10), 6 arrival orders",
+            "fractions": f"multiples of 1/2 (B=7, B=10): sequences of 1..{4 if q else 6}, multisets of 1..{7 if q else 9}; multiples of 1/8 with B=1 and B=7/8: multisets of 1..{8 if q else 10}",
+            "big": f"B=2**32, letters {{1, 2**31-1, 2**31, 2**31+1, 2**32-1, 2**32}}: all sequences of 1..{4 if q else 6}, multisets of 1..{5 if q else 7}",
+            "planted": f"B=12, letters {PLANT_LETTERS}, patterns <=4 parts, m=3..{6 if q else 9} bins, 6 orders, 4 algorithms"}
 
 
 def tasks(tier):
     q = tier == "quick"
     ts = []
-    for ch in spaces.chunked(spaces.sequences(range(0, 7), 1, 6 if q else 7), 4000):
+    for ch in spaces.chunked(spaces.sequences(range(0, 7), 1, 6 if q else 8), 4000):
         ts.append(("seq", ch, 6))
-    for ch in spaces.chunked(spaces.sequences(range(1, 11), 1, 4 if q else 5), 4000):
+    for ch in spaces.chunked(spaces.sequences(range(1, 11), 1, 4 if q else 6), 4000):
         ts.append(("seq", ch, 10))
-    for alpha, N, B in ((range(0, 7), 8 if q else 9, 6), (range(1, 11), 7 if q else 8, 10)):
+    for alpha, N, B in ((range(0, 7), 8 if q else 10, 6), (range(1, 11), 7 if q else 9, 10)):
         for ch in scopes.chunk_multisets(alpha, 1, N, 1500):
             ts.append(("ms", ch, B))
     for m in (range(3, 7) if q else range(3, 9)):
@@ -58,19 +58,19 @@ def tasks(tier):
             ts.append(("planted", ch, Bb))
     # near-miss sums around a 2**32 bin (a tolerance or a narrower number type would break the any-fit invariant there)
     BL = (1, 2 ** 31 - 1, 2 ** 31, 2 ** 31 + 1, 2 ** 32 - 1, 2 ** 32)
-    for ch in spaces.chunked(spaces.sequences(BL, 1, 4 if q else 5), 400):
+    for ch in spaces.chunked(spaces.sequences(BL, 1, 4 if q else 6), 400):
         ts.append(("seq", ch, 2 ** 32))
-    for ch in scopes.chunk_multisets(BL, 1, 5 if q else 6, 200):
+    for ch in scopes.chunk_multisets(BL, 1, 5 if q else 7, 200):
         ts.append(("ms", ch, 2 ** 32))
     for Bh, letters in scopes.HALVES.items():          # multiples of 1/2 around B/2 and B; and eighths with B=1 and B=7/8
-        for ch in spaces.chunked(spaces.sequences(letters, 1, 4 if q else 5), 1000):
+        for ch in spaces.chunked(spaces.sequences(letters, 1, 4 if q else 6), 1000):
             ts.append(("seq", ch, Bh))
-        for ch in scopes.chunk_multisets(letters, 1, 7 if q else 8, 1000):
+        for ch in scopes.chunk_multisets(letters, 1, 7 if q else 9, 1000):
             ts.append(("ms", ch, Bh))
     from fractions import Fraction
     for Bd in (1.0, 0.875):
         eighths = [i / 8 for i in range(1, 9) if i / 8 <= Bd]
-        for ch in scopes.chunk_multisets(eighths, 1, 8 if q else 9, 1000):
+        for ch in scopes.chunk_multisets(eighths, 1, 8 if q else 10, 1000):
             ts.append(("ms", ch, Bd))
     for ch in spaces.chunked(((items, m) for items, _, m in scopes.count_sweep_packing(tier)), 12):
         ts.append(("planted", ch, 10))
